@@ -9,6 +9,10 @@ use serde::{Deserialize, Serialize};
 
 pub const SIZES: [usize; 9] = [2, 3, 4, 5, 6, 8, 16, 32, 64];
 pub const STEPS_PER_RUN: usize = 50;
+/// large batches (every 12th run, 6 steps each): beyond any small-buffer / block / chunk size. The n x n tables are out of
+/// reach there; three single-cell statistics per size are tested instead (see `execute`).
+pub const LARGE_SIZES: [usize; 4] = [1000, 9000, 12288, 16385];
+pub const LARGE_STEPS_PER_RUN: usize = 6;
 
 #[derive(Clone, Debug, Serialize, Deserialize, PartialEq)]
 pub struct StatScn {
@@ -26,10 +30,11 @@ pub struct StatScn {
 pub fn generate(prop: &str, seed: u64, run_index: u64) -> StatScn {
     let mut r = SimRng::new(seed ^ 0xC15);
     let market_b = r.chance(0.5);
+    let large = run_index % 12 == 11;
     StatScn {
         property: prop.to_string(),
-        n: SIZES[(run_index % SIZES.len() as u64) as usize],
-        steps: STEPS_PER_RUN,
+        n: if large { LARGE_SIZES[((run_index / 12) % LARGE_SIZES.len() as u64) as usize] } else { SIZES[(run_index % SIZES.len() as u64) as usize] },
+        steps: if large { LARGE_STEPS_PER_RUN } else { STEPS_PER_RUN },
         seed: r.next(),
         fresh: r.chance(0.5),
         market_b,
@@ -154,7 +159,13 @@ pub fn execute(s: &StatScn) -> RunOutcome {
             }
             if let Some(k) = blind {
                 // the untraceable instruction took the one position nobody else has
-                let mut free: Vec<usize> = (0..n).filter(|p| !perm_b.contains(p)).collect();
+                let mut taken = vec![false; n];
+                for x in perm_b.iter() {
+                    if *x < n {
+                        taken[*x] = true;
+                    }
+                }
+                let mut free: Vec<usize> = (0..n).filter(|p| !taken[*p]).collect();
                 if free.len() != 1 {
                     return Err(mk("no-schedule-explains", step, "positions (B)", format!("a permutation of 0..{}", n), format!("{:?}", perm_b)));
                 }
@@ -181,6 +192,28 @@ pub fn execute(s: &StatScn) -> RunOutcome {
             // ---- tables
             let key = |t: &str| format!("{}_n{}", t, n);
             stats.table_add(&key("steps"), 1, 0, 1);
+            if n > 64 {
+                // large batches: one sample per step of three statistics whose exact probabilities under a uniform
+                // permutation are known (one pair per step keeps the samples independent):
+                //   nbrfar    two instructions submitted next to each other end up at least ceil(n/2) positions apart
+                //             (p = (n-k)(n-k+1) / (n(n-1)), k = ceil(n/2)): any block-wise / windowed shuffle fails this
+                //   firsthalf a seed-chosen instruction is processed in the first half (p = floor(n/2) / n)
+                //   pair      of two seed-chosen instructions the earlier-submitted one is processed first (p = 1/2)
+                let i = (mix(s.seed, 7000 + step as u64) % (n as u64 - 1)) as usize;
+                let j = (mix(s.seed, 9000 + step as u64) % n as u64) as usize;
+                let kk = (n + 1) / 2;
+                let d = perm_a[i].abs_diff(perm_a[i + 1]);
+                stats.table_add(&key("nbrfar"), 1, 0, (d >= kk) as u64);
+                stats.table_add(&key("firsthalf"), 1, 0, (perm_a[j] < n / 2) as u64);
+                if j != i {
+                    let (a, b) = (i.min(j), i.max(j));
+                    stats.table_add(&key("pair1"), 1, 0, (perm_a[a] < perm_a[b]) as u64);
+                    stats.table_add(&key("pair1steps"), 1, 0, 1);
+                }
+                stats.probe("large_batch_statistics");
+                stats.ops += 1;
+                continue;
+            }
             if n <= 6 {
                 stats.table_add(&key("perm"), factorial(n), perm_rank(&perm_a), 1);
             }
@@ -236,7 +269,7 @@ pub fn finalize(tables: &std::collections::BTreeMap<String, Vec<u64>>, prop: &st
     // total number of cells tested (union bound)
     let mut cells_total = 0usize;
     for (k, v) in tables {
-        if !k.starts_with("steps_") {
+        if !k.starts_with("steps_") && !k.starts_with("pair1steps_") {
             cells_total += v.len();
         }
     }
@@ -244,15 +277,25 @@ pub fn finalize(tables: &std::collections::BTreeMap<String, Vec<u64>>, prop: &st
     let mut report = serde_json::Map::new();
     let mut worst: Option<(f64, Violation)> = None;
     for (k, v) in tables {
-        if k.starts_with("steps_") {
+        if k.starts_with("steps_") || k.starts_with("pair1steps_") {
             continue;
         }
         let (kind, nn) = k.split_once("_n").unwrap();
         let n: usize = nn.parse().unwrap();
-        let steps = tables.get(&format!("steps_n{}", n)).map(|t| t[0]).unwrap_or(0) as f64;
+        let mut steps = tables.get(&format!("steps_n{}", n)).map(|t| t[0]).unwrap_or(0) as f64;
         let p = match kind {
             "perm" => 1.0 / factorial(n) as f64,
             "positem" => 1.0 / n as f64,
+            "nbrfar" => {
+                let kk = ((n + 1) / 2) as f64;
+                let nf = n as f64;
+                (nf - kk) * (nf - kk + 1.0) / (nf * (nf - 1.0))
+            }
+            "firsthalf" => (n / 2) as f64 / n as f64,
+            "pair1" => {
+                steps = tables.get(&format!("pair1steps_n{}", n)).map(|t| t[0]).unwrap_or(0) as f64;
+                0.5
+            }
             _ => 0.5,
         };
         let t = bernstein_t(steps, p, log_term);
